@@ -59,7 +59,7 @@ type hEntry struct {
 	Ok   bool   `json:"ok"`
 	Hdr  []hdrC `json:"hdr"`
 	Call int    `json:"call"`
-	Ck   string `json:"ck"` // kind of the Flame-level call: "" single method, "routes" Routes("M1,M2"), "any" Any()
+	Ck   string `json:"ck"` // kind of the Flame-level call: "" single method, "routes" Routes("M1,M2"), "any" Any(), "autohead" Get() under AutoHead
 }
 
 type hop struct {
@@ -436,6 +436,12 @@ func (x *treeExec) registerMulti(i int, es []hEntry) (accepted bool, detail stri
 	var r *flamego.Route
 	if es[0].Ck == "any" {
 		r = x.f.Any(es[0].R.text(), h) // the handle holds the leaves of all nine methods
+	} else if es[0].Ck == "autohead" {
+		x.f.AutoHead(true) // Get() registers HEAD as well and returns one handle for both
+		func() {
+			defer x.f.AutoHead(false)
+			r = x.f.Get(es[0].R.text(), h)
+		}()
 	} else {
 		r = x.f.Routes(es[0].R.text(), strings.Join(ms, ","), h) // the handle holds the LAST method's leaf only
 	}
